@@ -2,8 +2,11 @@ mod ctx;
 mod dispatch;
 mod gj;
 mod ops_c17;
+mod ops_centroid;
 mod ops_c18;
+mod ops_poly;
 mod ops_relate;
+mod ops_valid;
 
 use ctx::Ctx;
 use serde_json::Value;
@@ -65,6 +68,8 @@ fn main() {
 
 fn dispatch_case(cx: &mut Ctx, n: u64, case: &Value) {
     match case["op"].as_str().unwrap_or("") {
+        "centroid" => ops_centroid::centroid_case(cx, n, case),
+        "poly" => ops_poly::poly_case(cx, n, case),
         "relate" => ops_relate::relate_case(cx, n, case),
         "coordpos" => ops_relate::coordpos_case(cx, n, case),
         "c18_conv" => ops_c18::conv_case(cx, n, case),
